@@ -29,21 +29,25 @@ RULE = ("sev ops = (checker, enabled severities/certainty, value list of 0-4 val
         "arithmetic, pointer dereference, read of a local, library argument) under random preconditions/wrappers, every function "
         "executed natively under ASan+UBSan on 40 boundary/random argument vectors; non-trivial = the function contains at least one "
         "operation a checker looks at and survived the sanitizers (all do by construction)")
-EXPLANATION = ("Proved in Lean for the models: an error-severity finding of zerodiv / arrayIndex / negativeIndex / shiftTooManyBits / "
-               "integerOverflow is backed by a non-Impossible value without condition and not from a default argument (Known, Possible or "
-               "Inconclusive: that is all the code guarantees), nullPointer / uninitvar / invalidFunctionArg by a Known value, shiftNegative "
-               "by nothing (counterexample, F04a); the straight-line leak automaton is sound w.r.t. a concrete heap semantics for programs "
-               "of any length unless code follows a return (counterexample, F04b) and exact when no pointer is copied. The models cover "
-               "the grading/selection step and straight-line code only: whether a *reported value* is right is C01; the end-to-end claim "
-               "(no error finding on a UB-free program) is only searched on generated programs, so level other. Outside the model: "
+EXPLANATION = ("Proved in Lean for the models: an error-severity finding of zerodiv / arrayIndex / negativeIndex (one index) / shiftTooManyBits / "
+               "integerOverflow is backed by a triggering, non-Impossible value without condition and not from a default argument (Known, "
+               "Possible or Inconclusive: that is all the code guarantees), nullPointer / uninitvar / invalidFunctionArg by a Known value; "
+               "as found, shiftNegative (F04a) and accesses with several indexes (F04c) guarantee less (counterexamples proved, repaired "
+               "variants proved, the check reads the variant off the source); the straight-line leak automaton is sound w.r.t. a concrete "
+               "heap semantics for programs of any length unless code follows a return (counterexample, F04b) and exact when no pointer is "
+               "copied. The models cover the grading/selection step and straight-line code only: whether a *reported value* is right is "
+               "C01; the end-to-end claim is searched on generated UB-free functions (a finding counts when a tried execution executes the "
+               "flagged statement; findings in code no tried execution reaches are listed, not counted), so level other. Outside the model: "
                "lifetime checks, uninitialised struct members, container checks, CTU, conditional control flow in the leak automaton, "
-               "multi-dimensional index vectors, Lower/Upper bound values in isOutOfBounds.")
+               "Lower/Upper bound values in isOutOfBounds, the syntactic preconditions of each checker.")
 THEOREMS = ["Cppcheck.SevDecide.error_implies_definite", "Cppcheck.SevDecide.error_implies_definite_counterexample",
             "Cppcheck.SevDecide.zerodiv_error_definite", "Cppcheck.SevDecide.nullPointer_error_known",
-            "Cppcheck.SevDecide.arrayIndex_error_definite", "Cppcheck.SevDecide.shiftTooManyBits_error_definite",
+            "Cppcheck.SevDecide.arrayIndex_error_definite", "Cppcheck.SevDecide.arrayIndexN_error_partial",
+            "Cppcheck.SevDecide.arrayIndexN_error_counterexample", "Cppcheck.SevDecide.shiftTooManyBits_error_definite",
             "Cppcheck.SevDecide.integerOverflow_error_definite", "Cppcheck.SevDecide.uninitvar_error_known",
             "Cppcheck.SevDecide.invalidFunctionArg_error_known", "Cppcheck.SevDecide.shiftNegative_error_conditional_counterexample",
-            "Cppcheck.SevDecide.shiftNegative_error_partial", "Cppcheck.SevDecide.zerodiv_trigger_is_ub",
+            "Cppcheck.SevDecide.shiftNegative_error_partial", "Cppcheck.SevDecide.shiftNegative_error_definite_graded",
+            "Cppcheck.SevDecide.zerodiv_trigger_is_ub",
             "Cppcheck.SevDecide.shift_trigger_is_ub", "Cppcheck.SevDecide.overflow_trigger_is_ub",
             "Cppcheck.LeakStraight.leak_reports_sound", "Cppcheck.LeakStraight.leak_reports_sound_counterexample",
             "Cppcheck.LeakStraight.clean_program_no_reports", "Cppcheck.LeakStraight.leak_automaton_exact",
@@ -122,6 +126,57 @@ def isdigit_valid_range():
     return (int(v.group(1)), int(v.group(2))) if v else None
 
 
+def shiftneg_variant():
+    """which variant of CheckOther::negativeBitwiseShiftError the working tree has: '0' = `Severity::error` always (as found, F04a),
+    '1' = graded by value->errorSeverity() (proposed/C04-shiftnegative-severity.diff); None = unrecognised shape (fail closed)"""
+    text = open(os.path.join(core.REPO, "lib", "checkother.cpp"), encoding="utf-8").read()
+    m = re.search(r"void CheckOther::negativeBitwiseShiftError\(([^)]*)\)\s*\{(.*?)\n\}", text, re.S)
+    if not m:
+        return None
+    body = re.sub(r"//[^\n]*", "", m.group(2))
+    reps = re.findall(r"reportError\(tok,\s*(.*?),\s*\"(shiftNegative\w*)\"", body, re.S)
+    if sorted(r[1] for r in reps) != ["shiftNegative", "shiftNegativeLHS"]:
+        return None
+    sev = dict((r[1], re.sub(r"\s+", " ", r[0]).strip()) for r in reps)
+    if sev["shiftNegativeLHS"] != "Severity::portability":
+        return None
+    if sev["shiftNegative"] == "Severity::error":
+        return "0"
+    if sev["shiftNegative"] == "(!value || value->errorSeverity()) ? Severity::error : Severity::warning":
+        return "1"
+    return None
+
+
+def indexvec_variant():
+    """which variant of CheckBufferOverrun::arrayIndexError / negativeIndexError the tree has: '0' = severity and id from the single value
+    `index` (as found, F04c), '1' = proposed/C04-index-vector-severity.diff; None = unrecognised shape"""
+    text = open(os.path.join(core.REPO, "lib", "checkbufferoverrun.cpp"), encoding="utf-8").read()
+    got = []
+    for fn, var in (("arrayIndexError", "index"), ("negativeIndexError", "negativeValue")):
+        m = re.search(r"void CheckBufferOverrun::%s\(([^)]*)\)\s*\{(.*?)\n\}" % fn, text, re.S)
+        if not m:
+            return None
+        body = re.sub(r"//[^\n]*", "", m.group(2))
+        loop = re.search(r"for \(const ValueFlow::Value& indexValue : indexes\) \{(.*?)\n    \}", body, re.S)
+        rep = re.search(r"reportError\(getErrorPath\(tok, %s, \"[^\"]*\"\),\s*(.*?) \? Severity::error : Severity::warning,\s*(.*?),\s*arrayIndexMessage" % var, body, re.S)
+        if not loop or not rep:
+            return None
+        stmts = [re.sub(r"\s+", " ", x).strip() for x in loop.group(1).split(";") if x.strip()]
+        base = ["if (!indexValue.errorSeverity() && !mSettings->severity.isEnabled(Severity::warning)) return",
+                "if (indexValue.condition) condition = indexValue.condition",
+                "if (!%s || !indexValue.errorPath.empty()) %s = &indexValue" % (var, var)]
+        idexpr = re.sub(r"\s+", " ", rep.group(2)).strip()
+        if stmts == base and rep.group(1).strip() == "%s->errorSeverity()" % var and \
+                idexpr in ('index->condition ? "arrayIndexOutOfBoundsCond" : "arrayIndexOutOfBounds"', '"negativeIndex"'):
+            got.append("0")
+        elif stmts == base[:1] + ["errorSeverity = errorSeverity && indexValue.errorSeverity()"] + base[1:] and rep.group(1).strip() == "errorSeverity" and \
+                idexpr in ('condition ? "arrayIndexOutOfBoundsCond" : "arrayIndexOutOfBounds"', '"negativeIndex"'):
+            got.append("1")
+        else:
+            return None
+    return got[0] if got[0] == got[1] else None
+
+
 def gen_value(rng, checker, around):
     kind = rng.choice("KKPPPNI")
     vt = "i"
@@ -141,9 +196,9 @@ def gen_value(rng, checker, around):
     return "%s%s,%d,%s" % (kind, vt, iv, fl or "-")
 
 
-def sev_ops(rng, n, valid):
+def sev_ops(rng, n, valid, variant="00"):
     ops = []
-    checkers = ["zerodiv", "nullptr", "arrayidx", "shiftbits", "shiftneg", "intoverflow", "uninit", "invalidarg"]
+    checkers = ["zerodiv", "nullptr", "arrayidx", "arrayidx2", "arrayidx2", "shiftbits", "shiftneg", "intoverflow", "uninit", "invalidarg"]
     for _ in range(n):
         c = rng.choice(checkers)
         opts = "".join(rng.choice("01") for _ in range(3))
@@ -157,6 +212,10 @@ def sev_ops(rng, n, valid):
             size = rng.choice([1, 2, 10, 16])
             param = str(size)
             around = [size - 1, size, size, size + 1, -1, -1, 0, -2, 100]
+        elif c == "arrayidx2":
+            d1, d2 = rng.choice([1, 2, 3]), rng.choice([2, 3, 10])
+            param = "%dx%d" % (d1, d2)
+            around = [d1 - 1, d1, d2 - 1, d2, d2 + 1, -1, 0, 1]
         elif c == "shiftbits":
             param = rng.choice("su")
             cpp = rng.choice("001")
@@ -173,42 +232,66 @@ def sev_ops(rng, n, valid):
             param = "%d:%d" % valid
             around = [valid[0] - 1, valid[0], valid[1], valid[1] + 1, valid[1] + 1, 300, -1, 5]
         l1 = [gen_value(rng, c, around) for _ in range(rng.choice([0, 1, 1, 2, 2, 3, 4]))]
-        line = "sev %s %s%s %s %s" % (c, opts, cpp, param, " ".join(l1) if l1 else "-")
-        if c == "shiftneg":
+        line = "sev %s %s%s%s %s %s" % (c, opts, cpp, variant, param, " ".join(l1) if l1 else "-")
+        if c in ("shiftneg", "arrayidx2"):
             l2 = [gen_value(rng, c, around) for _ in range(rng.choice([0, 1, 1, 2, 3]))]
             line += " / " + (" ".join(l2) if l2 else "-")
         ops.append(line)
     return ops
 
 
-def p_impl_sev(res, ops, impl):
-    """P_impl on the implementation's own answers: an error-severity report needs a value in the list that is not Impossible, has no
-    condition and is not a default argument (Known where the checker demands it)"""
+def triggers(checker, param, pos, id_, iv, valid):
+    """does the int value `iv` of the operand at list position `pos` make the flagged operation undefined?"""
+    if checker in ("zerodiv", "nullptr"):
+        return iv == 0
+    if checker == "arrayidx":
+        return iv >= int(param) or iv <= -1
+    if checker == "arrayidx2":
+        return iv >= int(param.split("x")[pos]) or iv <= -1
+    if checker == "shiftbits":
+        return iv >= (32 if id_ == "shiftTooManyBits" else 31)
+    if checker == "shiftneg":
+        return pos == 1 and iv <= -1
+    if checker == "intoverflow":
+        return iv > 2 ** 31 - 1 or iv < -2 ** 31
+    if checker == "invalidarg":
+        return not (valid[0] <= iv <= valid[1])
+    return True
+
+
+def p_impl_sev(res, ops, impl, valid=(0, 255)):
+    """P_impl on the implementation's own answers: behind an error-severity report there must be a value of the operand that triggers
+    the checker and is definite: not Impossible, no condition, not a default argument (Known where the checker demands it)"""
     for op, out in zip(ops, impl):
         if out in ("-", "bad-op") or out.startswith("err"):
             continue
         f = op.split()
-        checker = f[1]
-        vals = [w for w in f[4:] if w not in ("-", "/")]
-        if checker == "shiftneg" and "/" in f:
-            vals = [w for w in f[f.index("/") + 1:] if w != "-"]
+        checker, param = f[1], f[3]
+        lists, cur = [[]], 0
+        for w in f[4:]:
+            if w == "/":
+                lists.append([])
+            elif w != "-":
+                lists[-1].append(w)
         for rep in out.split(";"):
             id_, sev, cert = rep.split("/")
             res.count("sev:%s:%s" % (id_, sev))
             if sev != "error":
                 continue
-            def definite(w):
+            def definite(w, pos):
                 kt, iv, fl = w.split(",")
                 if checker == "uninit":
                     return kt[1] == "u" and kt[0] == "K"
-                ok = kt[0] != "I" and kt[1] == "i" and "c" not in fl and "d" not in fl
+                ok = kt[0] != "I" and kt[1] == "i" and "c" not in fl and "d" not in fl and triggers(checker, param, pos, id_, int(iv), valid)
                 if checker in ("nullptr", "invalidarg"):
                     ok = ok and kt[0] == "K"
                 return ok
-            if not any(definite(w) for w in vals):
-                key = "shiftNegative-error-for-conditional-value" if id_ == "shiftNegative" else None
-                res.violation("%s reports %s with severity error although no value of the operand is definite (no condition, no default "
-                              "argument, not Impossible%s): %s" % (checker, id_, ", Known" if checker in ("nullptr", "invalidarg", "uninit") else "", op),
+            if not any(definite(w, pos) for pos, l in enumerate(lists) for w in l):
+                key = {"shiftNegative": "shiftNegative-error-for-conditional-value"}.get(id_)
+                if checker == "arrayidx2" and id_ in ("arrayIndexOutOfBounds", "negativeIndex"):
+                    key = "index-vector-error-graded-by-another-index"
+                res.violation("%s reports %s with severity error although no value of the operand is both out of range and definite (no "
+                              "condition, no default argument, not Impossible%s): %s" % (checker, id_, ", Known" if checker in ("nullptr", "invalidarg", "uninit") else "", op),
                               dict(kind="sev", op=op, impl=out, key=key), concrete=True, key=key)
 
 
@@ -217,15 +300,29 @@ def run_sev(ctx, res, drv, exe, n):
     if not res.oblig("translate:isdigit-valid-range", valid is not None, "translation",
                      "" if valid else "cfg/std.cfg: <function name=\"isdigit,std::isdigit\"> has no <valid>lo:hi</valid>"):
         return
+    v1, v2 = shiftneg_variant(), indexvec_variant()
+    if not res.oblig("translate:negativeBitwiseShiftError-variant", v1 is not None, "translation",
+                     "" if v1 else "lib/checkother.cpp: CheckOther::negativeBitwiseShiftError has neither the shape as found nor the proposed one"):
+        return
+    if not res.oblig("translate:arrayIndexError-variant", v2 is not None, "translation",
+                     "" if v2 else "lib/checkbufferoverrun.cpp: arrayIndexError / negativeIndexError have neither the shape as found nor the proposed one"):
+        return
+    variant = v1 + v2
+    res.extra["negativeBitwiseShiftError_variant"] = "graded by errorSeverity()" if v1 == "1" else "always Severity::error (F04a)"
+    res.extra["arrayIndexError_variant"] = "every index value graded" if v2 == "1" else "graded by the single value `index` (F04c)"
     corpus = load_corpus().get("sev", [])
-    ops = [c["op"].replace("@VALID@", "%d:%d" % valid) for c in corpus] + sev_ops(ctx.rng, n, valid)
+    def with_variant(op):
+        f = op.split()
+        f[2] = f[2][:4] + variant
+        return " ".join(f)
+    ops = [with_variant(c["op"].replace("@VALID@", "%d:%d" % valid)) for c in corpus] + sev_ops(ctx.rng, n, valid, variant)
     rc, impl, err = core.run_lines(exe, [os.path.join(core.REPO, "cfg", "std.cfg")], ops)
     rc2, model, err2 = core.run_lines(drv, [], ops)
     core.correspond(ctx, res, "sev", ops, impl, model, nontrivial=lambda op, out: out not in ("-", "bad-op") and not out.startswith("err"))
     if len(impl) == len(ops):
         bad = [o for o in impl if o.startswith("err") or o == "bad-op"]
         res.oblig("sev:harness-answers", not bad, "machinery", "" if not bad else "harness answered %s" % bad[0])
-        p_impl_sev(res, ops, impl)
+        p_impl_sev(res, ops, impl, valid)
 
 
 # ================================================================================================================
@@ -531,6 +628,7 @@ def run_ubfree(ctx, res, n_safe, n_planted, nargs, cli_opts):
     for p in parts:
         results.update(p)
     discarded = 0
+    flagged = {}        # k -> [(opts, finding, lo)] for UB-free functions with error-severity findings
     for k, f in enumerate(fns):
         nat = native[k]
         runs = results.get(k, [])
@@ -544,7 +642,7 @@ def run_ubfree(ctx, res, n_safe, n_planted, nargs, cli_opts):
                 if x["severity"] == "error":
                     errs.append((tuple(opts), x, lo))
         if f["planted"]:
-            res.count("planted:%s:%s" % (f["planted"], "found" if any(x["id"] == f["planted"] for (_, x, _) in errs) else "missed"))
+            res.count("planted:%s:%s" % (f["planted"], "found" if any(x["id"] == f["planted"] for (_, x, _) in errs) else "found-under-another-id" if errs else "missed"))
             # consistency: a function that is undefined on every path must not run clean (uninitvar / invalidFunctionArg are invisible to the sanitizers)
             if nat["ok"] and f["planted"] not in ("uninitvar", "invalidFunctionArg"):
                 res.oblig("ub:planted-bug-seen-natively", False, "validation", "planted %s ran clean under the sanitizers:\n%s" % (f["planted"], f["text"]))
@@ -558,29 +656,77 @@ def run_ubfree(ctx, res, n_safe, n_planted, nargs, cli_opts):
             if f.get("corpus"):
                 res.oblig("ub:corpus-program-ub-free", False, "validation", "%s: %s at %s" % (f["corpus"], nat["what"], nat["at"]))
             continue
+        if errs:
+            flagged[k] = errs
+        for kd in set(f["kinds"]):
+            res.count("gadget:" + kd)
+        res.case("ubfree|" + f["text"], True, dict(tie="ubfree", text=f["text"][:500], error_findings=len(errs)) if len(res.samples) < 12 and k % 37 == 0 else None)
+        res.traces_validated += 1
+    # ---- which flagged statements does a UB-free execution evaluate?  (the property speaks about evaluated expressions) -------------
+    executed = line_coverage(ctx, fns, sorted(flagged), vecs, d) if flagged else {}
+    for k, errs in flagged.items():
+        f = fns[k]
         seen = set()
         for (opts, x, lo) in errs:
             sig = (x["id"], x["line"] - lo, x["msg"])
             if sig in seen:
                 continue
             seen.add(sig)
+            if executed is None:
+                res.oblig("ub:line-coverage", False, "machinery", "gcov run failed")
+                return
+            if (x["line"] - lo) not in executed.get(k, set()):
+                # reported for a statement that none of the tried executions reaches: outside the property's claim (counted, listed in the evidence)
+                res.count("error-finding-on-statement-no-tried-execution-reaches:" + x["id"])
+                if len(res.extra.setdefault("findings_on_unreached_statements", [])) < 12:
+                    res.extra["findings_on_unreached_statements"].append(dict(id=x["id"], line=x["line"] - lo + 1, text=f["text"]))
+                continue
             key = None
             for ex_ in f.get("expect") or []:
                 if ex_["id"] == x["id"]:
                     key = ex_["key"]
             res.violation("cppcheck %s reports %s (error%s) at line %d of a function that is free of undefined behaviour by construction "
-                          "(ASan+UBSan clean on %d argument vectors): %s\n%s" % (" ".join(opts), x["id"], ", inconclusive" if x["inconclusive"] else "",
-                                                                                     x["line"] - lo + 1, nargs, x["msg"], f["text"]),
+                          "(ASan+UBSan clean on %d argument vectors, the flagged statement is executed): %s\n%s" %
+                          (" ".join(opts), x["id"], ", inconclusive" if x["inconclusive"] else "", x["line"] - lo + 1, nargs, x["msg"], f["text"]),
                           dict(kind="ubfree", text=f["text"].replace(f["name"] + "(", "@NAME@(", 1), opts=list(opts), finding=dict(id=x["id"], line=x["line"] - lo, msg=x["msg"]),
                                consts=f["consts"], key=key), concrete=True, key=key)
-        for kd in set(f["kinds"]):
-            res.count("gadget:" + kd)
-        res.case("ubfree|" + f["text"], True, dict(tie="ubfree", text=f["text"][:500], error_findings=len(seen)) if len(res.samples) < 12 and k % 37 == 0 else None)
-        res.traces_validated += 1
     res.extra["ubfree_functions"] = res.extra.get("ubfree_functions", 0) + len(fns) - discarded
     res.extra["generator_discarded"] = res.extra.get("generator_discarded", 0) + discarded
     res.oblig("ub:generator-is-ub-free", discarded <= max(2, len(fns) // 50), "validation",
               "" if discarded <= max(2, len(fns) // 50) else "%d of %d generated functions were rejected by the sanitizers" % (discarded, len(fns)))
+
+
+def line_coverage(ctx, fns, ks, vecs, d):
+    """lines (0-based offsets inside each function text) executed by the tried argument vectors, measured with gcov on a separate
+    uninstrumented-by-sanitizers build of the flagged functions only; None = machinery failure"""
+    cov = os.path.join(d, "cov%d" % len(os.listdir(d)))
+    os.makedirs(cov, exist_ok=True)
+    src, starts = c04_gen.PRELUDE, {}
+    for k in ks:
+        starts[k] = src.count("\n")
+        src += fns[k]["text"] + "\n"
+    cases = "\n".join("        case %d: f%d(a, b, c); break;" % (k, k) for k in ks)
+    src += UB_MAIN.replace("CASES", cases)
+    open(os.path.join(cov, "cov.c"), "w").write(src)
+    rc, out, err = core.sh(["gcc", "-std=gnu11", "-O0", "-w", "--coverage", "cov.c", "-o", "cov"], cwd=cov, timeout=600)
+    if rc != 0:
+        return None
+    for k in ks:
+        args = [str(x) for t in vecs[k] for x in t]
+        core.sh([os.path.join(cov, "cov"), str(k)] + args, cwd=cov, timeout=120)
+    rc, out, err = core.sh(["gcov", "-t", "cov.c"], cwd=cov, timeout=120)
+    if rc != 0 or "Source:cov.c" not in out:
+        return None
+    hit = set()
+    for l in out.split("\n"):
+        m = re.match(r"\s*([0-9*]+)\*?:\s*(\d+):", l)
+        if m and m.group(1).rstrip("*").isdigit() and int(m.group(1).rstrip("*")) > 0:
+            hit.add(int(m.group(2)))
+    res = {}
+    for k in ks:
+        n = fns[k]["text"].count("\n")
+        res[k] = set(off for off in range(n + 1) if (starts[k] + off + 1) in hit)
+    return res
 
 
 def load_corpus():
@@ -589,19 +735,32 @@ def load_corpus():
 
 
 def run(ctx, res):
+    import time
     thorough = ctx.tier == "thorough"
+    phases, t0 = {}, time.time()
+    def mark(name):
+        nonlocal t0
+        phases[name] = round(time.time() - t0, 1)
+        t0 = time.time()
+    res.extra["phase_seconds"] = phases
     core.prove(ctx, res, MODULES, THEOREMS)
+    mark("lake build + axiom audit (incl. waiting for the shared lake lock)")
     drv = ctx.driver("drv_c04")
     exe = os.environ.get("C04_HARNESS") or ctx.harness("c04")      # C04_HARNESS / C04_CPPCHECK: mutation experiments only (docs/C04.md)
+    mark("driver + harness build")
     run_sev(ctx, res, drv, exe, 30000 if thorough else 3000)
+    mark("sev")
     run_leak_corr(ctx, res, drv, 1500 if thorough else 120)
+    mark("leak correspondence")
     run_leak_pimpl(ctx, res, drv, 1200 if thorough else 150)
+    mark("leak P_impl")
     opts = [[], ["--enable=warning,portability", "--inconclusive"]]
     if thorough:
         for _ in range(8):
             run_ubfree(ctx, res, 400, 40, 40, opts)
     else:
         run_ubfree(ctx, res, 150, 20, 40, opts)
+    mark("UB-free functions")
     prune_cache()
 
 
